@@ -509,7 +509,13 @@ def gen_open(ctx, cases, n):
                         # the second point is far outside the basin and the step test can fire far from the root
                         # (observed: x^3 - 2^-63 from x0 = 2^-20, tol 9.5e-11 -> "converged" at 9.535e-07, root 4.77e-07)
                         ctx.count("secant:accuracy-not-claimed-below-unit-scale")
+                    elif basin and tol > s / 1024:
+                        # step < tol bounds the error only once the iteration is in its fast-convergence regime,
+                        # i.e. for tol small against the scale of the problem (Newton on u(u^2+s^2) from u = 1.8 s
+                        # takes a step 0.72 s and lands 1.1 s from the root)
+                        ctx.count(name + ":accuracy-not-claimed-tol-vs-scale")
                     elif basin and not e.has_exp():
+                        ctx.count(name + ":accuracy-checked")
                         # monotone-convergent start: result within tol of the exact root
                         # tol plus a rounding envelope of 8 ulp (tol may be below the spacing of doubles at root)
                         t = Fraction(tol) * SLACK + 8 * Fraction(EPS) * abs(Fraction(root))
